@@ -9,7 +9,8 @@ LEAN = ["Ymq.Props.C05", "Ymq.Props.C05Sched", "Ymq.Props.C04Shape"]
 AUDIT = "Ymq.Audit.C05"
 THEOREMS = ['Ymq.C05.abort_never_wrong_product', 'Ymq.C05.abort_consistent', 'Ymq.C05.abort_consistent_of_input', 'Ymq.C05.abort_stops', 'Ymq.C05.abort_bounded', 'Ymq.C05.abort_before_start',
             'Ymq.C04Shape.abort_bounded_shape', 'Ymq.C04Shape.source_shapes_ok', 'Ymq.C04Shape.source_mt_poll_first',
-            'Ymq.C04Shape.siqs_mt_abort_bounded', 'Ymq.C04Shape.mpqs_mt_abort_bounded', 'Ymq.C04Shape.siqs_st_abort_bounded', 'Ymq.C04Shape.mpqs_st_abort_bounded']
+            'Ymq.C04Shape.siqs_mt_abort_bounded', 'Ymq.C04Shape.mpqs_mt_abort_bounded', 'Ymq.C04Shape.siqs_st_abort_bounded', 'Ymq.C04Shape.mpqs_st_abort_bounded',
+            'Ymq.C04Shape.source_ecm_shape_ok', 'Ymq.C04Shape.ecm_abort_bounded', 'Ymq.C04Shape.ecm_unit_length']
 PROFILES = ["release", "chk"]
 TIMEOUT = 120.0
 LAT_BOUND_MS = 15000
